@@ -206,6 +206,14 @@ def datetimes_for(draw, fmt):
 
 @st.composite
 def decimals_for(draw, width):
+    form = draw(st.sampled_from(['plain', 'plain', 'plain', 'exponent', 'exponent', 'normalized', 'zero', 'tiny-zero']))
+    if form == 'exponent' and width >= 4:
+        # same number class, different representation: 12E+3 is the integer 12000 (str() of it is scientific)
+        nd = draw(uniform(1, width - 3))
+        ds = draw(st.text(alphabet='0123456789', min_size=nd, max_size=nd)).lstrip('0') or '0'
+        return decimal.Decimal((0, tuple(int(c) for c in ds), draw(uniform(1, min(3, width - nd)))))
+    if form == 'tiny-zero' and width >= 9:
+        return decimal.Decimal('0E-7')          # str() is '0E-7'; as a fixed-point number it is 0.0000000
     frac = draw(uniform(0, min(6, width - 2)))
     intd = draw(uniform(1, width - frac - (1 if frac else 0)))
     digits = draw(st.text(alphabet='0123456789', min_size=intd + frac, max_size=intd + frac))
@@ -214,10 +222,6 @@ def decimals_for(draw, width):
     else:
         text = digits
     value = decimal.Decimal(text)
-    form = draw(st.sampled_from(['plain', 'plain', 'plain', 'exponent', 'normalized', 'zero']))
-    if form == 'exponent' and not frac and intd + 3 <= width:
-        # same number class, different representation: 12E+3 is the integer 12000
-        return decimal.Decimal((0, tuple(int(c) for c in digits.lstrip('0') or '0'), draw(uniform(1, 3))))
     if form == 'normalized':
         n = value.normalize()
         sign, ds, exp = n.as_tuple()
@@ -297,8 +301,18 @@ def value_for(draw, cfg, codec, exact=True, typed_as_str=False):
     if ptype in ('int', 'long'):
         w = cfg['field_length'] if kind == 'FIXED' else draw(uniform(1, 30))
         v = draw(st.one_of(st.sampled_from([0, 1, 10 ** w - 1, 10 ** (w - 1)]), st.integers(0, 10 ** w - 1)))
-        if typed_as_str and draw(st.booleans()):
-            return str(v)
+        if typed_as_str:
+            # the number in another guise: a digit string (what the CSV tools pass), an integral float, a Decimal with
+            # a zero fraction or an exponent - all of them whole numbers that fit the field
+            kind = draw(st.sampled_from(['int', 'int', 'str', 'str', 'float', 'decimal-fraction', 'decimal-exponent']))
+            if kind == 'str':
+                return str(v)
+            if kind == 'float' and v < 2 ** 53:
+                return float(v)
+            if kind == 'decimal-fraction':
+                return decimal.Decimal(str(v) + '.' + '0' * draw(uniform(1, 3)))
+            if kind == 'decimal-exponent' and v and v % 10 == 0:
+                return decimal.Decimal(v).normalize()
         return v
     if ptype == 'decimal':
         return draw(decimals_for(cfg['field_length']))
@@ -324,6 +338,16 @@ def value_for(draw, cfg, codec, exact=True, typed_as_str=False):
 
 MTI = st.one_of(st.sampled_from(['1144', '1240', '1442', '1644', '1740', '0000', '9999', '0100']),
                 st.text(alphabet='0123456789', min_size=4, max_size=4))
+
+
+# (MTI, function code DE24) pairs with a meaning in the clearing protocol: file header and trailer, presentments,
+# chargebacks, fee collection, reconciliation, rejects, text. To the library they are messages like any other, wherever
+# they stand in a file.
+PROTOCOL_PAIRS = ([('1644', '697'), ('1644', '695')] * 3 +
+                  [('1644', '603'), ('1644', '605'), ('1644', '640'), ('1644', '680'), ('1644', '685'), ('1644', '688'), ('1644', '691'),
+                   ('1644', '693'), ('1644', '699'), ('1240', '200'), ('1240', '205'), ('1240', '282'), ('1442', '450'), ('1442', '451'),
+                   ('1442', '453'), ('1442', '454'), ('1740', '700'), ('1740', '780'), ('1740', '781'), ('1740', '782'), ('1740', '783'),
+                   ('1740', '790')])
 
 
 @st.composite
@@ -352,6 +376,10 @@ def messages(draw, config, codec, exact=True, pds_mode='keys', typed_as_str=Fals
         msg['DE%d' % b] = draw(value_for(config[str(b)], codec, exact=exact, typed_as_str=typed_as_str))
     if carriers and pds_mode == 'keys' and (draw(st.booleans()) or (rich and draw(uniform(0, 7)) > 0)):
         msg.update(draw(pds_sets(codec, len(carriers), big=pds_big, min_items=2 if rich else 1)))
+    c24 = config.get('24')
+    if c24 and c24.get('field_type') == 'FIXED' and c24.get('field_length') == 3 and not c24.get('field_python_type') \
+            and not c24.get('field_processor') and draw(uniform(0, 4)) == 0:
+        msg['MTI'], msg['DE24'] = draw(st.sampled_from(PROTOCOL_PAIRS))
     return msg
 
 
